@@ -103,6 +103,9 @@ var CheckFlagNames = []string{"AllEnable", "CheckSyntax", "CheckNoDefine", "Chec
 // Sessions in one process must be sequential: common.GConfig is a process global.
 func StartSession(root string, opts InitOptions) (*Session, error) {
 	globalInit.Do(func() { lhlog.InitLog(false) })
+	if b, err := json.Marshal(opts); err == nil {
+		Breadcrumb("StartSession root=" + root + " initializationOptions=" + string(b))
+	}
 	common.GlobalConfigDefautInit()
 	common.GConfig.IntialGlobalVar()
 	srv := langserver.CreateServer()
